@@ -25,7 +25,7 @@ checks = {
  "C11": ("exploration", "seeded search over source trees and ordered filesystem pairs, refinement check against a two-filesystem model", "7/C11",
          "copy/move/copy_dir/move_dir/create_dir_all/remove_dir_all between same instance (fast paths), two instances of one backend and two different stacks; return values, both filesystems' full snapshots and refusal of existing destinations without side effects."),
  "C12": ("exploration", "error monitor over failing calls with disjoint inner/outer name pools", "7/C12",
-         "Every Err of every call and every walk item in failure-heavy histories on adapter stacks: path is not the placeholder, lies in the caller's namespace at/above/below receiver or destination, Display leaks no inner name; not-found / file-exists / directory-exists / invalid-path / not-supported classes where the statement demands them. In a third of the runs one underlying call of one operation (biased to composites) fails with an injected I/O error; the error of that step must satisfy the same path rules (classification is judged on fault-free steps only) and the run ends there."),
+         "Every Err of every call and every walk item in failure-heavy histories on adapter stacks: path is not the placeholder, lies in the caller's namespace at/above/below receiver or destination, Display leaks no inner name; not-found / file-exists / directory-exists / invalid-path / not-supported classes where the statement demands them. In a third of the runs one underlying call of one operation (biased to composites) fails with an injected I/O error; the error of that step must satisfy the same path rules (classification is judged on fault-free steps only) and the run ends there. A third of the runs are replayed through the async port (same failure, seeded Pending injection, inside a tokio runtime): every error of AsyncVfsPath and the async adapters obeys the same rules (the text of a runtime I/O error itself is exempt from the name rule: async-std puts host paths there)."),
  "C13": ("exploration", "unrestricted call sequences with environment, I/O and stale-handle faults under catch_unwind", "7/C13",
          "All backends incl. EmbeddedFS and type-conflicting overlay layers; hostile joins, root calls, wrong-type calls, extreme seek offsets, zero-length buffers, handles kept across removals; on-disk non-UTF-8 names, dangling symlinks, entries removed behind the library; k-th-call I/O errors (one-shot/sticky), short I/O, EINTR. Any panic in a call, handle call, observer or drop is a violation."),
  "C14": ("exploration", "handle call scripts compared call by call with std::io::Cursor (count feedback), publish check at flush/drop", "7/C14",
